@@ -20,6 +20,13 @@
    some interleaving of the lanes makes the table model return exactly the observed codes, run
    counts and table contents; [P_b]: the counting laws of the property on the observation alone.
 
+   [Real sc os]: a script run in REAL time outside bubbles (one unit = some tens of milliseconds) in a
+   process with the buffered timer channels of the repository's go directive; [os] = the serial
+   repetitions that ran on a quiet machine; flake policy: it counts when NO repetition is acceptable.
+   The callers' own contexts (cancelled, expired, cancelled concurrently) are not part of a script:
+   the model ignores them and [P_b] never reads them.  [Tabled] also carries what
+   harness/mocks.RecScheduler answered to the same history ([mockobs]).
+
    [P_b] is the property itself, evaluated on the script and the OBSERVED outcome only. *)
 From Coq Require Import String.
 From Verif Require Export Lib.Base Lib.Reach Model.C02_Scheduler Model.C02_Script Model.C02_TableOps Model.C02_Burst.
@@ -33,6 +40,10 @@ Record obs := {
   ob_dup : option bool; (* None: no second ScheduleJob of the name was accepted during the script;
                            Some b: one was, and JobExists(name) = b at sc_end while that job is pending
                            (scripts never touch the table after such a call) *)
+  ob_insts : list N;    (* periodic: the times runtimeFunc returned up to sc_end, in order *)
+  ob_foreign : list bool; (* per call: it returned an error that is none of the scheduler's (e.g. the
+                           caller's ctx.Err()); such a call reads [Hung] in [o_calls]: it has no status of
+                           the model, and it did not report success *)
   ob_count : N          (* repetitions that showed this outcome *)
 }.
 
@@ -53,10 +64,20 @@ Record bobs := {
   bo_count : N
 }.
 
+Record mockobs := {
+  mk_inline_outs : list tout;
+  mk_inline_runs : list (N * N);
+  mk_rec_outs : list tout;
+  mk_rec_runs : list (N * N)
+}.
+
 Inductive body :=
 | Timed (sc : script) (os : list obs)
+| Real (sc : script) (os : list obs)     (* the script in REAL time (one unit = some tens of milliseconds), outside
+                                            any bubble, in a process with the timer-channel semantics of the
+                                            repository's go directive; [os] = three serial repetitions *)
 | Burst (b : burst) (os : list bobs)
-| Tabled (ops : list top) (outs : list tout) (runs : list (N * N))
+| Tabled (ops : list top) (outs : list tout) (runs : list (N * N)) (m : mockobs)
 | Skeleton (fn : string) (toks : list string).
 
 Record case := { c_id : N; c_body : body }.
@@ -89,8 +110,22 @@ Definition tout_eqb (a b : tout) : bool :=
   | TCode x, TCode y => code_eqb x y
   | TBool x, TBool y => Bool.eqb x y
   | TNames x, TNames y => list_eqb N.eqb x y
-  | _, _ => false
+  | TSilent, TSilent => true
+  | _, _ => false            (* TOther (an error outside the scheduler's set) equals nothing *)
   end.
+
+(* no call returned an error outside the scheduler's set: the model has no such result *)
+Definition any_foreign (ob : obs) : bool := existsb (fun b => b) (ob_foreign ob).
+
+(* a call that never returned (a foreign error is a returned call) *)
+Fixpoint hung_not_foreign (cs : list cst) (fs : list bool) : bool :=
+  match cs with
+  | [] => false
+  | c :: cs' => (is_hung c && negb (hd false fs)) || hung_not_foreign cs' (tl fs)
+  end.
+
+Definition timed_ok (ts : list tstate) (ob : obs) : bool :=
+  obs_match ts ob && (dup_ok ob && negb (any_foreign ob)).
 
 (* runJob = r_step (RLocked: load active, load finalised; RSet; RSend; RUnl); CancelJob =
    cancel_lookup + c_step (CLocked: load/store finalised; CSend; CUnl); finaliseJob = finalise *)
@@ -145,16 +180,36 @@ Definition burst_agree (b : burst) (o : bobs) : bool :=
              code_eqb (bo_reuse o) (if held s3 then ErrJobAlreadyExists else Nil))
   end.
 
+(* [Tabled]: the same history is also run against harness/mocks.RecScheduler, the abstract scheduler
+   through which the models of C03, C14, C15 and C20 are tied to the code: its return values and listed
+   names must equal the table model's (and so the real scheduler's).  Twice: [mk_inline] with RunInline
+   (RunJob / RunJobIfExists call the job function: the per-job run counts must equal the model's) and
+   [mk_rec] without (a run request is only recorded and the entry removed: every count is 0, by design).
+   By design the mock never runs a job by its timer: the harness's explicit Fire is "the job's time
+   arrives"; a TRun / TRunIf marked in [mk_fire] is issued to the mock as Fire (true = Nil, false =
+   ErrNoSuchJob) and to the real scheduler as RunJob. *)
+
+
+Definition mock_agree (outs' : list tout) (runs' : list (N * N)) (m : mockobs) : bool :=
+  list_eqb tout_eqb (mk_inline_outs m) outs' && list_eqb (prod_eqb N.eqb N.eqb) (mk_inline_runs m) runs'
+  && list_eqb tout_eqb (mk_rec_outs m) outs'
+  && list_eqb (prod_eqb N.eqb N.eqb) (mk_rec_runs m) (map (fun r => (fst r, 0)) runs').
+
 Definition agree (c : case) : bool :=
   match c_body c with
   | Timed sc os =>
       let ts := finals sc in
-      match os with [] => false | _ => forallb (fun ob => obs_match ts ob && dup_ok ob) os end
+      match os with [] => false | _ => forallb (timed_ok ts) os end
+  | Real sc os =>
+      (* flake policy for runs outside bubbles: a disagreement counts when none of the serial
+         repetitions is what the model predicts *)
+      let ts := finals sc in existsb (timed_ok ts) os
   | Burst b os =>
       match os with [] => false | _ => forallb (burst_agree b) os end
-  | Tabled ops outs runs =>
+  | Tabled ops outs runs m =>
       let '(s, outs') := tb_run tb_init ops in
       list_eqb tout_eqb outs outs' && list_eqb (prod_eqb N.eqb N.eqb) runs (tb_final_runs s)
+      && mock_agree outs' (tb_final_runs s) m
   | Skeleton fn toks =>
       match expected_skeleton fn with [] => false | e => list_eqb String.eqb toks e end
   end.
@@ -234,6 +289,28 @@ Definition dup_codes_ok (sc : script) (o : outcome) : bool :=
              end)
           (combine (sc_calls sc) (o_calls o)).
 
+(* every way of taking one element out of a list *)
+Fixpoint pick {X} (l : list X) : list (X * list X) :=
+  match l with
+  | [] => []
+  | x :: l' => (x, l') :: map (fun p => (fst p, x :: snd p)) (pick l')
+  end.
+
+(* "started by its timer, by an early-run request, or by both": every start has a cause of its own --
+   the time of an instance ([insts]: the job's time, or the times runtimeFunc returned), or a run
+   request that (possibly) succeeded, taken at once or, if jobFunc was in progress (a request tied
+   with a timer start), when that execution returned.  No cause serves two starts: an instance that a
+   run request has replaced is not run again by its own timer. *)
+Fixpoint justified (dur : N) (prev : option N) (sts insts runs : list N) : bool :=
+  match sts with
+  | [] => true
+  | s :: sts' =>
+      existsb (fun p => (fst p =? s) && justified dur (Some s) sts' (snd p) runs) (pick insts)
+      || existsb (fun p => (fst p <=? s)
+                           && ((fst p =? s) || match prev with Some q => q + dur =? s | None => false end)
+                           && justified dur (Some s) sts' insts (snd p)) (pick runs)
+  end.
+
 Definition P_oneoff (sc : script) (ob : obs) : bool :=
   let o := ob_out ob in
   let T := sc_due sc in
@@ -246,7 +323,9 @@ Definition P_oneoff (sc : script) (ob : obs) : bool :=
   let ctxs := times_of sc o KCtx (fun _ => true) in
   (* never twice, never overlapping, no panic, nothing left blocked *)
   (len st <=? 1) && (o_overlap o =? len st) && negb (o_panic o)
-  && negb (ob_hung ob) && negb (existsb is_hung (o_calls o))
+  && negb (ob_hung ob) && negb (hung_not_foreign (o_calls o) (ob_foreign ob))
+  (* it starts at its time or when a run request asks for it, never at another moment *)
+  && justified (sc_dur sc) None st [T] runs_may
   (* the job is claimed by at most one external call *)
   && (len runs_ok <=? 1) && (len cancels_ok <=? 1) && (is_empty runs_ok || is_empty cancels_ok)
   (* a run request that reported success means the job runs (then), unless the parent context is
@@ -275,11 +354,14 @@ Definition P_periodic (sc : script) (ob : obs) : bool :=
   let st := o_starts o in
   let runs_may := times_of sc o KRun maybe_nil in
   let undisturbed := negb (has_kind sc KCancel) && negb (has_kind sc KCtx) && negb (has_kind sc KDup)
-                     && negb (ob_hung ob) && negb (existsb is_hung (o_calls o)) in
+                     && negb (ob_hung ob) && negb (hung_not_foreign (o_calls o) (ob_foreign ob)) in
   (* never overlaps itself *)
   (o_overlap o <=? 1) && (is_empty st ==> (o_overlap o =? 0)) && negb (o_panic o) && spaced (sc_dur sc) st
   (* one run per instance at most *)
-  && (len st <=? sc_ticks sc)
+  && (len st <=? sc_ticks sc) && (len st <=? len (ob_insts ob))
+  (* every start is the timer of an instance at that instance's time, or a run request; an instance
+     started early by a run request is not started again by its own timer *)
+  && justified (sc_dur sc) None st (ob_insts ob) runs_may
   (* keeps ticking: left alone, every instance runs, except that a run request landing on an
      instance's time may replace that instance *)
   && ((undisturbed && (sc_ticks sc * (sc_due sc + sc_dur sc) + sc_dur sc <? sc_end sc)) ==>
@@ -327,6 +409,12 @@ Fixpoint tspec (live : list (name * (N * bool))) (next : N) (started : list N)
           | Some (j, p) => tspec (if p then live else live_del live n) next (j :: started) ops' outs' runs
           | None => false
           end
+      | TRunIf n, TSilent =>
+          match live_get live n with
+          | Some (j, p) => tspec (if p then live else live_del live n) next (j :: started) ops' outs' runs
+          | None => tspec live next started ops' outs' runs
+          end
+      | TCancelIf n, TSilent => tspec (live_del live n) next started ops' outs' runs
       | TRun n, TCode ErrNoSuchJob | TCancel n, TCode ErrNoSuchJob =>
           match live_get live n with None => tspec live next started ops' outs' runs | Some _ => false end
       | TCancel n, TCode Nil =>
@@ -422,8 +510,9 @@ Definition P_burst (b : burst) (o : bobs) : bool :=
 Definition P_b (c : case) : bool :=
   match c_body c with
   | Timed sc os => forallb (P_timed sc) os
+  | Real sc os => existsb (P_timed sc) os   (* counts when every serial repetition shows it *)
   | Burst b os => forallb (P_burst b) os
-  | Tabled ops outs runs => tspec [] 0 [] ops outs runs
+  | Tabled ops outs runs _ => tspec [] 0 [] ops outs runs
   | Skeleton _ _ => true      (* no clause of the property speaks of the source text *)
   end.
 
